@@ -193,6 +193,11 @@ func TestC31(t *testing.T) {
 	{
 		scen = append(scen, [][]string{{"A"}, {"C"}, {"C"}, {"A"}}, [][]string{{"A", "A"}, {"C", "A"}, {"A", "C"}})
 	}
+	if !run.Quick() {
+		// thorough: effectively unbounded preemptions (the scenarios are short) and larger scenarios
+		bound = 12
+		scen = append(scen, [][]string{{"A", "C", "A"}, {"C", "A", "C"}, {"A"}, {"C"}}, [][]string{{"A"}, {"A"}, {"C"}, {"C"}, {"A"}})
+	}
 	for _, sc := range scen {
 		var parts []string
 		for _, th := range sc {
